@@ -41,6 +41,16 @@ CHECKS = {
             'Reference framing parser lib/basic_ref.parse_program from doc/bbcbasic.5; cases the documentation leaves open '
             'are outside the domain.',
             'bounded-exhaustive enumeration of inputs x file histories against a reference parser'),
+    'C07': ('exploration', '4 C07',
+            'Structure-aware exhaustive enumeration on the real dfs binary (ASan+UBSan+libstdc++ assertions, with and '
+            'without NDEBUG; plain build for memory use): every truncation length of the structural regions of a valid '
+            'file of every extension (raw and .gz, and the gzip stream itself), every structural byte x boundary values '
+            '(all 256 values for count/size/offset fields, extreme 16/32-bit sizes), all files of length <=1 (<=2 '
+            'thorough), every valid file under every other extension, file-name shapes and the command x argument x '
+            'option matrix.',
+            'Exhaustive over the stated structural neighbourhoods, not over all byte strings; memory safety as far as '
+            'the sanitizers observe; hangs re-run alone before being reported.',
+            'bounded-exhaustive structural input enumeration on sanitizer builds of the real binary'),
 }
 
 NA_REASON = 'check not built yet (work in progress; see DESIGN.md section 4)'
